@@ -220,3 +220,17 @@ def truth(c):
     if z3.is_false(s):
         return False
     return None
+
+
+def approx(a, b, rel=1e-9):
+    """|a - b| <= rel * (1 + |a| + |b|) in both modes (for identities that hold only up to the rounding of
+    floating-point constants such as sqrt(2) used by the code)"""
+    a, b = _sc(a), _sc(b)
+    if _symb(a) or _symb(b):
+        ea, eb = E(a), E(b)
+        absd = z3.If(ea - eb >= 0, ea - eb, eb - ea)
+        aa = z3.If(ea >= 0, ea, -ea)
+        ab = z3.If(eb >= 0, eb, -eb)
+        from .engine import real_val
+        return absd <= real_val(rel) * (1 + aa + ab)
+    return abs(a - b) <= rel * (1 + abs(a) + abs(b))
